@@ -194,7 +194,7 @@ End ReactExt.
 (* ---- the same statements for the graph-level model ---------------------------------------- *)
 Section AgentExt.
   Variable tn : list call -> res (list tmsg).
-  Variable tns : list call -> res (list string * list emitted).
+  Variable tns : list call -> res (list string * list emitted * option N).
   Variable rd : string -> bool.
   Variable rd_nonempty : bool.
   Variable modifier : list msg -> list msg.
@@ -263,7 +263,7 @@ Definition tool_calls_first (s : step) : Prop :=
 
 Section DefaultChecker.
   Variable tn : list call -> res (list tmsg).
-  Variable tns : list call -> res (list string * list emitted).
+  Variable tns : list call -> res (list string * list emitted * option N).
   Variable rd : string -> bool.
   Variable rd_nonempty : bool.
   Variable modifier : list msg -> list msg.
